@@ -81,6 +81,14 @@ func init() {
 	v("I32", mkInt(32))
 	v("I64", mkInt(64))
 	v("Int", mkInt(64))
+	v("LastU32", func(e *Engine, fr *frame, fn *ssa.Function, a []Value) Value {
+		name := e.concStr(a[0], "verif name")
+		k := e.fresh[name]
+		if k == 0 {
+			return e.T.Const(32, 0)
+		}
+		return e.symTerms[fmt.Sprintf("%s#%d", name, k-1)]
+	})
 	v("IntRange", func(e *Engine, fr *frame, fn *ssa.Function, a []Value) Value {
 		x := e.NewSym(e.concStr(a[0], "verif name"), 64)
 		lo, hi := a[1].(*sym.Term), a[2].(*sym.Term)
@@ -891,6 +899,41 @@ func init() {
 		return e.NewSym("rand.Uint32", 32)
 	})
 	reg("math/rand.Seed", nop)
+	// (*rand.Rand).Intn over a harness-supplied Source: the first draw is taken
+	// as the result, under the assumption that it is below n (which is the
+	// contract of the harness source: it returns draw<<32 with draw in [0,n)).
+	reg("(*math/rand.Rand).Intn", func(e *Engine, fr *frame, fn *ssa.Function, a []Value) Value {
+		n := a[0].(*sym.Term)
+		if !e.Branch(e.T.Slt(e.intC(0), n)) {
+			panic(targetPanic{runtime: true, msg: "invalid argument to Intn", where: e.where(fr)})
+		}
+		srcP := e.fieldPtr(fr, fn, a[0+0], "src")
+		_ = srcP
+		return nil
+	})
+	delete(intrinsics, "(*math/rand.Rand).Intn")
+	randDraw := func(e *Engine, fr *frame, fn *ssa.Function, a []Value, n *sym.Term) *sym.Term {
+		src := (*e.fieldPtr(fr, fn, a[0], "src")).(Iface)
+		m := e.findMethod(src.T, "Int63")
+		r := e.callFunction(fr, m, []Value{src.V}, nil).(*sym.Term)
+		x := e.T.AShr(r, e.intC(32))
+		e.Assume(e.T.And(e.T.Sle(e.intC(0), x), e.T.Slt(x, n)))
+		return x
+	}
+	reg("(*math/rand.Rand).Intn", func(e *Engine, fr *frame, fn *ssa.Function, a []Value) Value {
+		n := a[1].(*sym.Term)
+		if !e.Branch(e.T.Slt(e.intC(0), n)) {
+			panic(targetPanic{runtime: true, msg: "invalid argument to Intn", where: e.where(fr)})
+		}
+		return randDraw(e, fr, fn, a, n)
+	})
+	reg("(*math/rand.Rand).Int31n", func(e *Engine, fr *frame, fn *ssa.Function, a []Value) Value {
+		n := a[1].(*sym.Term)
+		if !e.Branch(e.T.Slt(e.T.Const(32, 0), n)) {
+			panic(targetPanic{runtime: true, msg: "invalid argument to Int31n", where: e.where(fr)})
+		}
+		return e.T.Extract(randDraw(e, fr, fn, a, e.T.Sext(n, 64)), 31, 0)
+	})
 }
 
 func sortSlice(e *Engine, fr *frame, fn *ssa.Function, a []Value) Value {
